@@ -431,6 +431,7 @@ def plan(rng, tier, nproj):
     projects.append(clean_project(P.gen_project(rng, opts), "noslash"))
     projects.append(clean_project(P.gen_project(rng, opts), "tripled"))
     projects.append(clean_project(DELETE_FORM_PROJECT, "deleteform"))
+    projects.append(clean_project(OPTIONAL_RULES_PROJECT, "clean"))
     return projects
 
 
@@ -445,6 +446,29 @@ DELETE_FORM_PROJECT = {
                                   "params": [{"name": "q0", "ctx": False, "loc": "form", "alias": None,
                                               "type": "string", "pointer": False, "validator": None,
                                               "slice": False}]}]}],
+}
+
+
+def _op(name, loc, ty, validator):
+    return {"name": name, "ctx": False, "loc": loc, "alias": None, "type": ty, "pointer": True, "validator": validator, "slice": False}
+
+
+# optional (pointer) parameters that carry a rule but neither `required` nor `omitempty`: every engine hands the nil pointer to
+# the validator when the parameter is not sent (always part of the run, whatever the seed)
+OPTIONAL_RULES_PROJECT = {
+    "config": {"schemes": ["sec1"], "default_security": None, "enforce": False, "engine": "gin", "title": "API",
+               "version": "1.2.3", "base_url": "https://api.example.com"},
+    "types": ["Item"],
+    "controllers": [{"name": "OCtl0", "pkg": "ctl", "tag": "O", "route": "/o", "security": [], "descr": "",
+                     "methods": [{"name": "M0Opt", "verb": "GET", "route": "/x", "hidden": False, "deprecated": False,
+                                  "security": [], "ret": "string", "errtype": "error", "response": None, "errors": [],
+                                  "descr": "", "file": 0,
+                                  "params": [_op("limit", "query", "int", "gte=1,lte=100"), _op("tenant", "header", "string", "required"),
+                                             _op("page", "query", "int64", "gte=0"), _op("tag", "header", "string", "min=2")]},
+                                 {"name": "M1Opt", "verb": "POST", "route": "/y", "hidden": False, "deprecated": False,
+                                  "security": [], "ret": None, "errtype": "error", "response": None, "errors": [],
+                                  "descr": "", "file": 0,
+                                  "params": [_op("n", "form", "uint32", "gte=1"), _op("s", "form", "string", "max=5")]}]}],
 }
 
 
